@@ -177,10 +177,26 @@ func coalesceSibling(c C09Case) {
 	}
 }
 
-func coalesceSomethingElse() {
-	if ev, err := aucoalesce.CoalesceMessages(otherGroup); err == nil {
-		aucoalesce.ResolveIDs(ev)
+func otherGroupDigest() string {
+	ev, err := aucoalesce.CoalesceMessages(otherGroup)
+	if err != nil {
+		return "error " + err.Error()
 	}
+	aucoalesce.ResolveIDs(ev)
+	b, _ := json.Marshal(ev)
+	return string(b) + fmt.Sprint(ev.Warnings)
+}
+
+// otherGroupRef: what the fixed group coalesces to when the process starts, before any generated event
+var otherGroupRef = otherGroupDigest()
+
+// coalesceSomethingElse coalesces a fixed group of another event; what comes out never depends on what was
+// coalesced before (compared with process start).
+func coalesceSomethingElse() error {
+	if d := otherGroupDigest(); d != otherGroupRef {
+		return fmt.Errorf("a fixed group coalesced after this event differs from how it came out when the process started:\n  now   %s\n  start %s", d, otherGroupRef)
+	}
+	return nil
 }
 
 func setField(r *kenc.Rec, key, val string) {
@@ -568,7 +584,9 @@ func propC09(c C09Case) error {
 	}
 	coalesceSibling(c) // nor on what was coalesced before
 	ev, err := aucoalesce.CoalesceMessages(msgs)
-	coalesceSomethingElse() // the event handed out must not depend on what is coalesced afterwards
+	if eerr := coalesceSomethingElse(); eerr != nil { // the event handed out must not depend on what is coalesced afterwards, nor the other way round
+		return fmt.Errorf("%s\n  %v", c.Describe(), eerr)
+	}
 	data := 0
 	hasSyscall := false
 	for _, r := range c.Recs {
